@@ -12,6 +12,7 @@ CONSTANTS
   Valences = {"neg", "zero", "pos", "none"}
   Scores = {"none", "+10", "-5", "50%", "0.25", "10", "-10%", "-0.5"}
   Unscoreds = {FALSE, TRUE}
+  Msgs = {"text"}
   SuppU <- SuppScore
   MaxFb = 2
   MaxSupp = 1
